@@ -432,7 +432,7 @@ impl P2 for Ps {
     fn make_msg(v: &str, rng: &mut Rng) -> Self::Msg {
         use proto::peersharing::Message as M;
         match v {
-            "ShareRequest" => M::ShareRequest(rng.next_u8()),
+            "ShareRequest" => M::ShareRequest(if rng.chance(1, 3) { *rng.pick(&[0u8, 1, 255]) } else { rng.next_u8() }),
             "SharePeers" => M::SharePeers(g_peers(rng)),
             _ => M::Done,
         }
